@@ -150,7 +150,9 @@ def rand_case(rng, kind=None, amp=None):
 
 
 def corpus():
-    return _corpus() + [L.case("cv_layout", [24, 1, 4], "corpus-cv-2d-arrays"),
+    return _corpus() + [L.case("vector_mixed_dtype", [1], "corpus-mixed-dtypes"),
+                       L.case("vector_mixed_dtype", [2], "corpus-mixed-dtypes"),
+                       L.case("cv_layout", [24, 1, 4], "corpus-cv-2d-arrays"),
                        L.case("cv_layout", [30, 2, 3], "corpus-cv-2d-arrays")]
 
 
